@@ -9,8 +9,31 @@ ents = [json.loads(l) for f in sorted(glob.glob(os.path.join(ROOT, 'known_findin
 nopen = sum(1 for e in ents if e['status'] == 'open')
 nfix = sum(1 for l in subprocess.check_output(['git', '-C', '/repo', 'log', '--format=%s']).decode().splitlines() if l.startswith('fix:'))
 out = rd('00-head.md')
+import re
+def second_wave(P):
+    lines = []
+    for k in (3, 4):
+        d = os.path.join(ROOT, 'seeded', f'{P}-{k}')
+        mp = os.path.join(d, 'meta.json')
+        if not os.path.exists(mp):
+            continue
+        m = json.load(open(mp)); title = ''
+        for l in open(os.path.join(d, 'notes.md')):
+            if l.startswith('#'):
+                title = re.sub(r'^#+\s*(Change|Seeded change)?\s*\d*\s*[—:-]*\s*', '', l.strip()); break
+        t = f"* {P}-{k} (second wave) — {title}: first run {m.get('first_result', m.get('checks'))} → final {m.get('checks')}."
+        if m.get('history'):
+            t += ' ' + m['history'][0].upper() + m['history'][1:] + '.'
+        lines.append(t)
+    return '\n'.join(lines)
 for i in range(1, 21):
-    out += rd(f'C{i:02d}.md').rstrip() + '\n\n'
+    P = f'C{i:02d}'
+    txt = rd(f'{P}.md').rstrip()
+    if f'{P}-3' not in txt:
+        sw = second_wave(P)
+        if sw and '**Differences from the plan.**' in txt:
+            txt = txt.replace('**Differences from the plan.**', sw + '\n\n**Differences from the plan.**', 1)
+    out += txt + '\n\n'
 out += rd('90-tail.md').replace('{{SEEDED_TABLE}}', rd('seeded.md'))
 out += '\n' + rd('appendix.md')
 for k, v in {'{{NTOTAL}}': len(ents), '{{NOPEN}}': nopen, '{{NFIXED}}': len(ents) - nopen, '{{NFIXCOMMITS}}': nfix}.items():
